@@ -278,7 +278,7 @@ func call(r request) grant {
 		// unwinding: never talk to the scheduler again
 		return grant{abort: true}
 	}
-	if wantNames() && r.kind < NUnlock && r.label == "" {
+	if wantNames() && (r.kind < NUnlock || r.kind == nSpawnTimer || r.kind == nSpawnTicker) && r.label == "" {
 		r.label = callerFunc()
 	}
 	raceDisable()
@@ -462,6 +462,23 @@ func BeginExplore() { call(request{kind: nExplore}) }
 func WaitIdle() []BlockedInfo {
 	call(request{kind: OpIdle})
 	return Blocked()
+}
+
+// LogSoFar returns a copy of the execution log (marks and log lines) up to now.
+func LogSoFar() []string {
+	call(request{kind: nBlocked, n: 3})
+	return copyLog()
+}
+
+var logSnap []string
+
+//go:norace
+func copyLog() []string {
+	out := make([]string, 0, len(logSnap))
+	for i := 0; i < len(logSnap); i++ {
+		out = append(out, strings.Clone(logSnap[i]))
+	}
+	return out
 }
 
 // PendingTimers returns the number of armed one-shot timers (AfterFunc / NewTimer)
@@ -1173,7 +1190,7 @@ func (s *sched) notify(t *thread, r *request) grant {
 		nt.isTimer = true
 		nt.deadline = s.now + r.d
 		nt.timerObj = r.obj
-		nt.pending = &request{kind: OpTimerWait}
+		nt.pending = &request{kind: OpTimerWait, label: "timer armed in " + r.label}
 		g.t = nt
 	case nSpawnTicker:
 		nt := s.newThread(t, "k")
@@ -1181,7 +1198,7 @@ func (s *sched) notify(t *thread, r *request) grant {
 		nt.period = r.d
 		nt.deadline = s.now + r.d
 		nt.tickCh = r.obj
-		nt.pending = &request{kind: OpTick}
+		nt.pending = &request{kind: OpTick, label: "ticker started in " + r.label}
 		g.t = nt
 	case nTimerStop:
 		// r.t2 is the timer thread
@@ -1242,6 +1259,10 @@ func (s *sched) notify(t *thread, r *request) grant {
 			s.now = r.d
 		}
 	case nBlocked:
+		if r.n == 3 {
+			logSnap = s.res.Log
+			break
+		}
 		if r.n == 2 {
 			for _, tt := range s.threads {
 				if !tt.finished && !tt.cancelled && tt.pending != nil && tt.isTimer && !tt.fired {
